@@ -108,7 +108,7 @@ def _cond_ok(cond, shape):
     if not cond:
         return True
     try:
-        return bool(eval(cond, {"__builtins__": {}}, dict(shape, min=min, max=max, len=len, any=any, all=all)))
+        return bool(eval(cond, {"__builtins__": {}}, dict(shape, min=min, max=max, len=len, any=any, all=all, chr=chr, ord=ord, abs=abs, sum=sum, sorted=sorted, range=range)))
     except Exception:
         return False
 
